@@ -165,6 +165,8 @@ func (jr *jpegReader) nextMarker() bool {
 			jr.marker = markerType(jr.buf[1])
 			return true
 		}
+		// Marker outside of an image (no SOI yet): skip it and keep searching.
+		jr.err = jr.discard(1)
 	}
 	return false
 }
